@@ -105,6 +105,24 @@ func runAllocCases(a *args) {
 		// successful ParseVector: at most one, in steady state and right after each kind of failing parse
 		if _, err := v.Parse(vec); err == nil {
 			report("ParseVector", minAllocs(reps, nil, func() { sinkE = v.ParseRaw(vec) }), c.Budget["parse_ok"], false, nil)
+			if c.Ver == "3.0" || c.Ver == "3.1" {
+				// v3 accepts its metrics in any order: the same elements reversed, and rotated by one (accepted iff the
+				// grammar says so - checked by parsing first; a spelling the parser refuses is C01's business)
+				hdr := "CVSS:" + c.Ver + "/"
+				if els := strings.Split(strings.TrimPrefix(vec, hdr), "/"); strings.HasPrefix(vec, hdr) && len(els) > 1 {
+					rev := make([]string, len(els))
+					for i, e := range els {
+						rev[len(els)-1-i] = e
+					}
+					rot := append(append([]string{}, els[1:]...), els[0])
+					for _, alt := range []string{hdr + strings.Join(rev, "/"), hdr + strings.Join(rot, "/")} {
+						alt := alt
+						if _, err := v.Parse(alt); err == nil {
+							report("ParseVector (metrics in another order)", minAllocs(reps, nil, func() { sinkE = v.ParseRaw(alt) }), c.Budget["parse_ok"], false, map[string]interface{}{"spelling": alt})
+						}
+					}
+				}
+			}
 			for _, fb := range c.Fails {
 				bad := string(bytesOf(fb))
 				report("ParseVector after a failing ParseVector",
